@@ -116,6 +116,13 @@ def render_module(m):
     if m["all"] is not None:
         items = ", ".join(repr(n) for n in m["all"])
         txt = f"__all__ = ({items}{',' if m['all'] else ''})" if m["all_tuple"] else f"__all__ = [{items}]"
+        form = m.get("all_form")
+        if form and m["all"]:
+            # the same list, built up in steps the way real modules do
+            first, rest = repr(m["all"][0]), ", ".join(repr(n) for n in m["all"][1:])
+            step = {"plus": f"__all__ += [{rest}]", "extend": f"__all__.extend(({rest}{',' if rest else ''}))",
+                    "append": "\n".join(f"__all__.append({n!r})" for n in m["all"][1:])}[form]
+            txt = f"__all__ = [{first}]" + ("\n" + step if rest else "")
         lines = lines + [txt] if m["all_last"] else [txt] + lines
     return "\n".join(lines) + "\n"
 
@@ -533,6 +540,7 @@ def random_tree(rnd):
             if ns:
                 m["all"] = sorted(rnd.sample(ns, rnd.randint(1, len(ns))))
                 m["all_tuple"], m["all_last"] = rnd.random() < 0.4, rnd.random() < 0.5
+                m["all_form"] = rnd.choice([None, None, "plus", "extend", "append"])
     return tree if tree_loads(tree) else None
 
 
@@ -707,6 +715,12 @@ def tree_case_text(k, tree, clients, useds, impl_out, cpython, stdlib):  # noqa:
     for rule, checker in (("fix_starred_imports", f"starred_case_ok {FUEL} g{k}"),
                           ("fix_reimported_names", f"reimported_case_ok {FUEL} {glist([ids(s) for s in ids.of if s in stdlib])} g{k}")):
         cs, labels = [], []
+        if rule == "fix_reimported_names" and any(m.get("wrap") for m in tree["mods"]):
+            # since the round-4 repair a re-import is not redirected through an import inside a compound statement
+            # (which branch runs is unknown to the tool); the flat model has no such notion: sweep only
+            txt.append("Eval vm_compute in (bad_idx (fun _ : nat => true) []).")
+            blocks.append([])
+            continue
         for i, (body, used) in enumerate(zip(clients, useds)):
             out = impl_out[rule][i]
             src = client_source(body, used)
@@ -1016,6 +1030,14 @@ SIGS = {"same_name_rebound": sig_same_name_rebound, "dotted_import_head": sig_do
 IMPORT_SITES = set(SITE.values())
 
 
+def match_hunt(findings, case):
+    """a failure of a hunt-corpus item (a fixed input) is matched by the finding that names the item"""
+    for f in findings:
+        if f.kind == "finding" and case.get("hunt") and case["hunt"].startswith(f.fields.get("hunt", "\0")):
+            return [f]
+    return None
+
+
 def match_finding(findings, sites, case):
     """Every changed name must be explained by a listed finding whose site is in `sites` and whose structural
     predicate holds for that name (a record without changed names -- only output/exception differ -- needs one
@@ -1138,6 +1160,60 @@ def stage_site(impl, d: Path, wd: Path, case):
 
 
 # ---------------------------------------------------------------------------------------------
+# hunt corpus (harness/c18_hunt.py): fixed end-to-end witnesses, each in its own file tree
+
+def hunt_batch(impl, wd: Path):
+    """run every rule of every hunt item inside the item's tree, execute before/after in fresh module state,
+    compare stdout + exception.  Returns failure records like oracle_batch (with `hunt` = item id)."""
+    from . import c18_hunt
+    base = wd / "trees"
+    jobs, meta = [], []
+    for k, (hid, files, cpath, src, rules, opts) in enumerate(c18_hunt.ITEMS):
+        d = base / f"h{k}"
+        d.mkdir(parents=True, exist_ok=True)
+        for rel, text in files.items():
+            p = d / rel
+            p.parent.mkdir(parents=True, exist_ok=True)
+            p.write_text(text)
+        impl.enter(d)
+        cl = []
+        tree = {"mods": [{"name": rel[:-3].replace("/", "."), "init": rel.endswith("__init__.py"), "all": None, "body": [],
+                          "raw": text} for rel, text in files.items()]}
+        for rule in rules:
+            out = impl.run(rule, src)
+            rec = {"rule": rule, "tree": tree, "src": src, "out": out if isinstance(out, str) else None, "names": [],
+                   "dir": str(d), "hunt": hid}
+            if isinstance(out, tuple):
+                meta.append((k, None, dict(rec, crash=out[1])))
+                continue
+            if out == src:
+                continue
+            try:
+                ast.parse(out)
+            except SyntaxError:
+                meta.append((k, None, dict(rec, crash="output is not valid Python")))
+                continue
+            cl.append({"id": len(meta), "before": opts.get("ref", src), "after": out, "names": [], "fresh": True,
+                       "package": opts.get("pkg")})
+            meta.append((k, len(cl) - 1, rec))
+        jobs.append({"dir": str(d), "modules": [], "pool": [], "clients": cl})
+    os.chdir(common.VERIF)
+    res = run_worker(jobs, base)
+    fails, n_exec = [], 0
+    for k, ci, rec in meta:
+        if ci is None:
+            fails.append(dict(rec, diff=["<crash>"]))
+            continue
+        r = res[k]["clients"][ci]
+        n_exec += 1
+        if r["before"]["exc"]:
+            continue
+        if r["diff"]:
+            fails.append(dict(rec, diff=r["diff"], before=r["before"], after=r["after"]))
+    return fails, n_exec
+
+
+# ---------------------------------------------------------------------------------------------
 # the check
 
 SWEEP_SEED = 1234          # the deterministic sweep never depends on VERIF_SEED
@@ -1212,13 +1288,20 @@ def triage(impl, wd, fails, kf):
     for f in fails:
         site = SITE[f["rule"]]
         sites = {site}
-        if f["rule"] == "format_code" and "<crash>" not in f["diff"]:
+        if f["rule"] == "format_code" and "<crash>" not in f["diff"] and not f.get("hunt"):
             try:
                 site = stage_site(impl, Path(f["dir"]), wd, f)
             except Exception as e:  # noqa
                 common.log("stage bisection failed:", e)
             sites = {site}
         f["site"] = site
+        if f.get("hunt"):
+            m = match_hunt(kf, f)
+            if m is None:
+                unmatched.append(f)
+            else:
+                matched.setdefault(m[0].id, []).append(f)
+            continue
         m = match_finding(kf, sites, f) if "<crash>" not in f["diff"] else None
         if m is None and f["rule"] == "format_code" and "<crash>" not in f["diff"]:
             m = match_finding(kf, IMPORT_SITES, f)
@@ -1231,7 +1314,7 @@ def triage(impl, wd, fails, kf):
 
 
 def slim(f):
-    return {"rule": f["rule"], "site": f.get("site"), "modules": {m["name"]: render_module(m) for m in f["tree"]["mods"]},
+    return {"rule": f["rule"], "site": f.get("site"), "hunt": f.get("hunt"), "modules": {m["name"]: render_module(m) for m in f["tree"]["mods"]},
             "packages": [m["name"] for m in f["tree"]["mods"] if m["init"]],
             "source": f["src"], "output": f["out"], "names_changed": f["diff"], "crash": f.get("crash"),
             "before": f.get("before"), "after": f.get("after")}
@@ -1307,6 +1390,9 @@ def check(run: common.Run):  # noqa: C901
     # ---- 4. deterministic sweep with the property oracle (seed independent)
     kf = common.load_findings(PID)
     fails, n_exec = oracle_batch(impl, wd, sweep_items(run.tier), "o")
+    hfails, hn = hunt_batch(impl, wd)          # the round-4 hunt corpus runs with the sweep
+    fails = hfails + fails
+    n_exec += hn
     matched, unmatched = triage(impl, wd, fails, kf)
     for f in kf:
         if f.kind != "finding":
